@@ -182,7 +182,9 @@ func (w *World) startDate() string {
 	}
 	// service days whose start instants have 9, 10 and 11 decimal digits as Unix seconds (and one before 1970),
 	// so that orderings of trip UIDs as strings and as numbers disagree
-	return []string{"20240114", "20240115", "20240116", "20231231", "19991231", "20010908", "20010909", "22870101", "19691231", "19700101", "20240229", "20230229", "20380119", "20380120"}[w.t.Weighted(3, 3, 3, 2, 1, 1, 1, 1, 1, 1, 1, 1, 1, 1)]
+	// ... and days on which clocks change in New York or Paris (23 and 25 hour days)
+	return []string{"20240114", "20240115", "20240116", "20231231", "19991231", "20010908", "20010909", "22870101", "19691231", "19700101", "20240229", "20230229", "20380119", "20380120",
+		"20240310", "20241103", "20231105", "20250309", "20240331", "20241027"}[w.t.Weighted(3, 3, 3, 2, 1, 1, 1, 1, 1, 1, 1, 1, 1, 1, 2, 2, 1, 1, 1, 1)]
 }
 
 func pad1(r string) string {
@@ -397,6 +399,9 @@ func (w *World) Tick() *gtfsrt.FeedMessage {
 			t.Fault("clock-stall")
 		case 2:
 			w.pubNow += int64(t.Range(60, 3600))
+			if t.Chance(1, 4) {
+				w.pubNow += int64(t.Range(3600, 30000)) // the publisher was down for hours
+			}
 			t.Fault("clock-jump-forward")
 		}
 	}
@@ -472,6 +477,12 @@ func (w *World) tripDescriptor(tr *train) *gtfsrt.TripDescriptor {
 		td.StartTime = ps(tr.startTime)
 	} else {
 		td.StartDate = ps(tr.startDate)
+	}
+	if w.Cfg.WeirdRate > 0 && w.t.Chance(1, 8) {
+		// schedule relationships other than the default: nothing in the journal's contract depends on them
+		sr := []gtfsrt.TripDescriptor_ScheduleRelationship{gtfsrt.TripDescriptor_SCHEDULED, gtfsrt.TripDescriptor_ADDED, gtfsrt.TripDescriptor_UNSCHEDULED, gtfsrt.TripDescriptor_CANCELED, gtfsrt.TripDescriptor_REPLACEMENT, gtfsrt.TripDescriptor_DUPLICATED, gtfsrt.TripDescriptor_DELETED}[w.t.Choose(7)]
+		td.ScheduleRelationship = &sr
+		w.t.Probe("world-trip-schedule-relationship")
 	}
 	if w.Cfg.Nyct && !tr.noNyct {
 		d := gtfsrt.NyctTripDescriptor_NORTH
